@@ -64,7 +64,7 @@ def main():
                     breaks.append({'kind': 'model-build', 'what': f"model no longer compiles against regenerated Gen: {b['file']}:{b['line']} {b['message']}"})
                 if not broken_obligations(log_drv):
                     breaks.append({'kind': 'model-build', 'what': 'lake build avra_driver failed', 'log': log_drv[-2000:]})
-            ok, build_log = vlib.lake_build([f'Avra.Props.{prop}'])
+            ok, build_log = vlib.lake_build([f'Avra.Props.{tf}' for tf in getattr(mod, 'THEOREM_FILES', [prop])])
             if not ok:
                 bl = broken_obligations(build_log)
                 for b in bl:
@@ -121,7 +121,7 @@ def main():
     coverage = {
         'obligations': max(n_theorems, 1) if ok else max(sum(len(vlib.theorems_of(f)[0]) for f in getattr(mod, 'THEOREM_FILES', [prop])), 1),
         'discharged': n_theorems - len(bad) if ok else 0,
-        'checker_cmd': f'cd /verif/lean && lake build Avra.Props.{prop} && lake env lean /verif/.cache/Audit{prop}.lean   (kernel check of every theorem + #print axioms)',
+        'checker_cmd': f'cd /verif/lean && lake build ' + ' '.join('Avra.Props.' + tf for tf in getattr(mod, 'THEOREM_FILES', [prop])) + f' && lake env lean /verif/.cache/Audit{prop}.lean   (kernel check of every theorem + #print axioms)',
         'trusted_base': vlib.TRUSTED_BASE + getattr(mod, 'TRUSTED_EXTRA', []),
         'theorems': names,
         'axioms_used': sorted({x for v in axioms.values() for x in v}),
